@@ -6,7 +6,44 @@ earlier in the list (register feedback, including q -> own d); every node input 
 """
 
 COMB = {'And2': 2, 'Or2': 2, 'Xor2': 2, 'Nand2': 2, 'Not': 1, 'Buf': 1, 'Add': 2, 'Sub': 2, 'Mul': 2, 'Mux2': 3, 'Equal': 2}
+
+# Library blocks used as netlist nodes WITH their optional ports connected / with several outputs.  Widths: 'W' = the data width
+# of the netlist, 1 = a one-bit control/flag.  spec(opts) -> (input widths, output widths); make(py4hw, parent, name, ins, outs, opts)
+LIB = {
+    'Add': dict(opts=['ci', 'co'], weight=4,
+                spec=lambda o: (['W', 'W'] + ([1] if o.get('ci') else []), ['W'] + ([1] if o.get('co') else [])),
+                make=lambda P, p, n, i, r, o: P.Add(p, n, i[0], i[1], r[0], ci=i[2] if o.get('ci') else None, co=r[1] if o.get('co') else None)),
+    'Abs': dict(opts=['inverted'], weight=1,
+                spec=lambda o: (['W'], ['W'] + ([1] if o.get('inverted') else [])),
+                make=lambda P, p, n, i, r, o: P.Abs(p, n, i[0], r[0], inverted=r[1] if o.get('inverted') else None)),
+    'Reg': dict(opts=['enable', 'reset'], weight=2,
+                spec=lambda o: (['W'] + ([1] if o.get('enable') else []) + ([1] if o.get('reset') else []), ['W']),
+                make=lambda P, p, n, i, r, o: P.Reg(p, n, i[0], r[0], enable=i[1] if o.get('enable') else None,
+                                                    reset=i[-1] if o.get('reset') else None)),
+    'ShiftRight': dict(opts=['arithmetic'], weight=1,
+                       spec=lambda o: (['W', 'W'] + ([1] if o.get('arithmetic') else []), ['W']),
+                       make=lambda P, p, n, i, r, o: P.ShiftRight(p, n, i[0], i[1], r[0], arithmetic=i[2] if o.get('arithmetic') else False)),
+    'DelayLine': dict(opts=['en', 'reset'], weight=1,
+                      spec=lambda o: (['W'] + ([1] if o.get('en') else []) + ([1] if o.get('reset') else []), ['W']),
+                      make=lambda P, p, n, i, r, o: P.DelayLine(p, n, i[0], i[1] if o.get('en') else None, i[-1] if o.get('reset') else None, r[0], 2)),
+    'Comparator': dict(opts=[], weight=2, spec=lambda o: (['W', 'W'], [1, 1, 1]),
+                       make=lambda P, p, n, i, r, o: P.Comparator(p, n, i[0], i[1], r[0], r[1], r[2])),
+    'Swap': dict(opts=[], weight=1, spec=lambda o: (['W', 'W', 1], ['W', 'W']),
+                 make=lambda P, p, n, i, r, o: P.Swap(p, n, i[0], i[1], i[2], r[0], r[1])),
+    'Counter': dict(opts=[], weight=1, spec=lambda o: ([1, 1], ['W']),
+                    make=lambda P, p, n, i, r, o: P.Counter(p, n, i[0], i[1], r[0])),
+    'ModuloCounter': dict(opts=[], weight=1, spec=lambda o: ([1, 1], ['W', 1]),
+                          make=lambda P, p, n, i, r, o: P.ModuloCounter(p, n, 3, i[0], i[1], r[0], r[1])),
+    'Bit': dict(opts=[], weight=2, spec=lambda o: (['W'], [1]),
+                make=lambda P, p, n, i, r, o: P.Bit(p, n, i[0], 0, r[0])),
+}
 _K = {}
+
+
+def out_width(nd, o, W):
+    if 'ow' in nd:
+        return W if nd['ow'][o] == 'W' else nd['ow'][o]
+    return 1 if nd['cls'] == 'Equal' else W
 
 
 def classes():
@@ -59,7 +96,7 @@ def classes():
                         nm = 's%d_%d' % (j, o)
                         if plan.get('name_clash') and clash_names:
                             nm = clash_names.pop(0)
-                        sig[key] = self.wire(nm, 1 if nd['cls'] == 'Equal' else W)
+                        sig[key] = self.wire(nm, out_width(nd, o, W))
             for j, nd in enumerate(plan['nodes']):
                 i = [sig[tuple(r)] for r in nd['ins']]
                 o = [sig[('n', j, k)] for k in range(nd.get('nout', 1))]
@@ -72,6 +109,8 @@ def classes():
                     py4hw.Reg(self, nm, i[0], o[0], enable=i[1] if len(i) > 1 else None)
                 elif c == 'Constant':
                     py4hw.Constant(self, nm, 1, o[0])
+                elif c == 'Lib':
+                    LIB[nd['lib']]['make'](py4hw, self, nm, i, o, nd.get('opts', {}))
                 else:
                     getattr(py4hw, c)(self, nm, *(i + o))
             for k, r in enumerate(plan['outs']):
@@ -80,7 +119,17 @@ def classes():
             for key, k in extra_bufs:
                 py4hw.Buf(self, 'ob%d' % k, sig[key], out_wires[k])
 
-    _K.update(HLeaf=HLeaf, HReg=HReg, HNet=HNet)
+    class HChild(py4hw.Logic):
+        """harness structural block whose only child is one library block with all the ports of that configuration connected"""
+        def __init__(self, parent, name, rec, cfg):
+            super().__init__(parent, name)
+            ins, outs = rec.build(self, cfg, parent.wire)
+            for k, w in enumerate(ins):
+                self.addIn('in%d' % k, w)
+            for k, w in enumerate(outs):
+                self.addOut('out%d' % k, w)
+
+    _K.update(HLeaf=HLeaf, HReg=HReg, HNet=HNet, HChild=HChild)
     return _K
 
 
@@ -91,23 +140,41 @@ def gen_netlist(rnd, big=False):
     n_nodes = rnd.randrange(3, 30 if big else 15)
     chainy = rnd.random()
     nodes = []
-    outs_of = []      # (j, o, is_equal)
+    outs_of = []      # (j, o, narrow): narrow = a one-bit flag in a wider netlist, only usable on one-bit pins
+    lib_names = sorted(LIB)
+    lib_weights = [LIB[k]['weight'] for k in lib_names]
     for j in range(n_nodes):
         r = rnd.random()
-        if r < 0.18:
+        lib = None
+        if r < 0.16 and (n_in or outs_of):
+            cls = 'Lib'
+            lib = rnd.choices(lib_names, lib_weights)[0]
+        elif r < 0.30:
             cls = 'Reg'
-        elif r < 0.24:
+        elif r < 0.35:
             cls = 'HReg'
-        elif r < 0.34:
+        elif r < 0.44:
             cls = 'HLeaf'
-        elif r < 0.37:
+        elif r < 0.47:
             cls = 'Constant'
         else:
             cls = rnd.choice(list(COMB))
         if n_in == 0 and not outs_of:
             cls = 'Constant'
         nout = 1
-        if cls in ('HLeaf', 'HReg'):
+        iw = ow = opts = None
+        if cls == 'Lib':
+            opts = dict((k, 1) for k in LIB[lib]['opts'] if rnd.random() < 0.6)
+            have_narrow = W == 1 or any(nr for _, _, nr in outs_of)
+            if not have_narrow:
+                # no one-bit signal to put on a control pin yet: optional control inputs stay open, blocks that need one become Bit
+                for k in ('ci', 'enable', 'reset', 'en', 'arithmetic'):
+                    opts.pop(k, None)
+                if 1 in LIB[lib]['spec'](opts)[0]:
+                    lib, opts = 'Bit', {}
+            iw, ow = LIB[lib]['spec'](opts)
+            nin, nout = len(iw), len(ow)
+        elif cls in ('HLeaf', 'HReg'):
             nin = rnd.randrange(1, 4)
             nout = rnd.randrange(1, 3)
         elif cls == 'Reg':
@@ -117,7 +184,9 @@ def gen_netlist(rnd, big=False):
         else:
             nin = COMB[cls]
 
-        def pick(allow_later):
+        def pick(allow_later, narrow=False):
+            if narrow and W != 1:
+                return list(rnd.choice([('n', a, b) for a, b, eq in outs_of if eq]))
             cands = [('i', k) for k in range(n_in)] + [('n', a, b) for a, b, eq in outs_of if not eq]
             if allow_later and rnd.random() < 0.5:
                 # register feedback: from this node itself or a later one (decided now, nodes exist later)
@@ -128,26 +197,31 @@ def gen_netlist(rnd, big=False):
                 return list(rnd.choice(recent))
             return list(rnd.choice(cands))
         ins = []
-        for _ in range(nin):
-            r_ = pick(cls in ('Reg', 'HReg'))
+        for pin in range(nin):
+            nar = bool(iw) and iw[pin] == 1
+            r_ = pick(cls in ('Reg', 'HReg'), nar)
             for _retry in range(4):         # distinct wires on the pins of one instance, unless there is no choice
                 if r_ not in ins:
                     break
-                r_ = pick(cls in ('Reg', 'HReg'))
+                r_ = pick(cls in ('Reg', 'HReg'), nar)
             ins.append(r_)
         if cls in ('And2', 'Xor2') and rnd.random() < 0.06:
             ins[1] = list(ins[0])       # the same wire on two pins of one instance
-        nodes.append(dict(cls=cls, ins=ins, nout=nout))
+        nd = dict(cls=cls, ins=ins, nout=nout)
+        if cls == 'Lib':
+            nd.update(lib=lib, opts=opts, ow=ow)
+        nodes.append(nd)
         for o in range(nout):
-            outs_of.append((j, o, cls == 'Equal'))
+            outs_of.append((j, o, W != 1 and out_width(nd, o, W) == 1))
     # resolve feedback placeholders to a real full-width output of the target (or fall back to an input)
     for j, nd in enumerate(nodes):
         for k, r in enumerate(nd['ins']):
             if r[0] == 'fb':
                 t = r[1]
-                while t < n_nodes and nodes[t]['cls'] == 'Equal':
+                wide = lambda q: [o for o in range(nodes[q]['nout']) if out_width(nodes[q], o, W) == W]
+                while t < n_nodes and not wide(t):
                     t += 1
-                nd['ins'][k] = ['n', t, rnd.randrange(nodes[t]['nout'])] if t < n_nodes else (['i', rnd.randrange(n_in)] if n_in else ['n', 0, 0])
+                nd['ins'][k] = ['n', t, rnd.choice(wide(t))] if t < n_nodes else (['i', rnd.randrange(n_in)] if n_in else ['n', 0, 0])
     used = set()
     for nd in nodes:
         for r in nd['ins']:
@@ -192,7 +266,10 @@ def features(plan):
     for r in plan['outs']:
         fan[tuple(r)] = fan.get(tuple(r), 0) + 1
         span = max(span, top - (lvl[r[1]] if r[0] == 'n' else 0))
-    return dict(max_fanout=max(fan.values()), feedback_edges=fb, self_loops=selfloop, max_span=span, nodes=len(nodes))
+    lib = [nd for nd in nodes if nd['cls'] == 'Lib']
+    return dict(max_fanout=max(fan.values()), feedback_edges=fb, self_loops=selfloop, max_span=span, nodes=len(nodes),
+                lib_nodes=len(lib), lib_optional_ports=sum(len(nd.get('opts') or {}) for nd in lib),
+                multi_output_nodes=sum(1 for nd in nodes if nd.get('nout', 1) > 1))
 
 
 def build(case):
@@ -203,6 +280,8 @@ def build(case):
     if case['type'] == 'block':
         recipe(case['src'], case['block']).build(hw, tup(case['cfg']), hw.wire)
         return hw.children['d']
+    if case['type'] == 'child':
+        return classes()['HChild'](hw, 'wrap', recipe(case['src'], case['block']), tup(case['cfg']))
     plan = case['plan']
     iw = [hw.wire('in%d' % k, plan['w']) for k in range(plan['n_in'])]
     ow = [hw.wire('out%d' % k, plan['w']) for k in range(len(plan['outs']))]
